@@ -153,8 +153,8 @@ theorem reachable_store_wellformed (s : Store) (h : Reachable s) :
       ∀ l, p.2.lock = some l → Fresh p.2.writes l.startTS :=
   ⟨h.inv.1, fun p hp => ⟨(h.entries p hp).desc, (h.entries p hp).timed, (h.entries p hp).lockFresh⟩⟩
 
-/-- refinement: every command moves every key by exactly one of the eight labelled steps of `KStep`
-    (same, commit, rollback, marker, locks, unlock, gc, wipe), with a label the command allows for that key -/
+/-- refinement: every command moves every key by exactly one of the nine labelled steps of `KStep`
+    (same, commit, rollback, marker, locks, touch, unlock, gc, wipe), with a label the command allows for that key -/
 theorem every_command_refines_key_steps (s : Store) (c : Cmd) (hs : SInv s) (hok : c.Ok s) :
     KvSorted (c.run s).kv ∧ ∀ k, ∃ lab, c.labels k lab ∧ KStep (getEntry s.kv k) lab (getEntry (c.run s).kv k) :=
   run_refines s c hs hok
